@@ -129,6 +129,11 @@ def evalc(e, env=None):
         if env and e['n'] in env:
             return env[e['n']]
         return None
+    if k == 'mem':
+        # env may fix a structure member whatever the object expression: {'.used_arch': 3}
+        if env and ('.' + e.get('f', '')) in env:
+            return env['.' + e['f']]
+        return None
     if k == 'un':
         v = evalc(e['e'], env)
         if v is None:
